@@ -131,10 +131,48 @@ RESULTS = {
     "C13-D": ("C13", "fail-safe decompressor takes a refill that does not fill the cache as end of input",
               "archive source returning short reads during repair",
               ("detected", "C13", ["h_cmp_fs_pass"], "intact 3-block stream through a 1-byte source recovered 0 bytes")),
+    # ---- third round (sub-agents also given the list of first- and second-round changes)
+    "C04-E": ("C04", "fail-safe encryption reader no longer preloads chunk 0; read() loads WITHOUT tag check whenever the cache is empty (also right after a refused chunk)",
+              "damaged chunk >= 1 that is not the last, consumer polling again after Ok(0) (convert_to_archive does)",
+              ("detected", "C04", ["h_enc_fs_read_auth"], "bytes returned after the reader had reported the end (data after a failed chunk is used)")),
+    "C04-F": ("C04", "convert_to_archive keeps the partially filled buffer only when the read error is UnexpectedEof",
+              "compression on, byte-level corruption of a middle chunk, unauthenticated mode (decompressor fails with InvalidData)",
+              ("missed", "the repair loop ArchiveFailSafeReader::convert_to_archive drives an ArchiveWriter (hash-table inserts): outside the claim, only the layer readers it consumes are decided")),
+    "C06-E": ("C06", "CHUNK_SIZE = 128 KiB - 16 in the normal build (writer and readers agree)",
+              "more than 131056 bytes through the encryption layer",
+              ("detected", "C06", ["h_enc_maps_fwd"], "format constants changed: chunk 131056 tag 16")),
+    "C06-F": ("C06", "ECIES nonce numbered per recipient ('ECIES NONCE0', 'ECIES NONCE1', ...) in wrap and unwrap",
+              ">= 2 recipients, reader not the first recipient / independent decoder",
+              ("detected", "C06", ["h_ecc_wrap_unwrap"], "the entry wrapped for recipient 1 does not decode with X25519 + HKDF-SHA256 + AES-256-GCM('ECIES NONCE0') as documented")),
+    "C07-E": ("C07", "add_public_keys replaces the recipient list instead of extending it",
+              ">= 2 recipients handed over in more than one call",
+              ("detected", "C07", ["h_enc_cfg_recipients_header"], "recipient #0 of 2 (added in separate add_public_keys calls) cannot open the archive")),
+    "C07-F": ("C07", "to_persistent seeds the ECIES generator from the archive key instead of the OS",
+              "two headers from one configuration / knowledge of the archive key",
+              ("detected", "C07", ["h_enc_cfg_recipients_header"], "two headers produced from one configuration carry the same ephemeral public key")),
+    "C09-E": ("C09", "start_file detects duplicates with insert(): a refused duplicate remaps the existing name to the id about to be allocated",
+              "refused duplicate, then further building and a read back",
+              ("missed", "needs inserts into ArchiveWriter's HashMaps (files_info): does not finish under the model checker; only operations on empty tables are decided")),
+    "C09-F": ("C09", "append_file_content only checks the writer state, not that the id is open",
+              "append to an ended id followed by interleaving, or an empty append to an unknown id",
+              ("detected", "C09", ["h_lib_writer_unknown_id"], "append_file_content(id 0, size 0) accepted although that id is not an open file")),
+    "C10-E": ("C10", "BlocksToFileReader::read treats a 0-byte read as an empty content block and goes on with the next block header",
+              "read with an empty buffer at a content-block edge",
+              ("detected", "C10", ["h_lib_b2f_step"], "a read with an empty buffer on file b after 0 bytes returned Err(WrongBlockSubFileType)")),
+    "C10-F": ("C10", "compression reader returns early for a 0-byte request after having taken its state: layer left Empty",
+              "one read with an empty buffer, then any access",
+              ("detected", "C10", ["h_cmp_read_step"], "read at 0 (after a read with an empty buffer) failed: WrongReaderState")),
+    "C14-E": ("C14", "encryption writer gathers small writes in a pending buffer; flush() sends it only when the chunk offset is > 0",
+              "(bytes through the layer) mod 128 KiB < 4096 at flush time",
+              ("detected", "C14", ["h_enc_w_0_1"], "9 plaintext bytes written, flush() returned, the destination holds 40 bytes (41 expected at least)")),
+    "C14-F": ("C14", "ArchiveWriter::flush returns early when no file is in progress",
+              "compression layer, flush with no file open (add_file then flush)",
+              ("detected", "C14", ["h_lib_writer_flush"], "ArchiveWriter::flush() returned without flushing the destination")),
 }
 
-# second-round deliverables live in /tmp/m2_<PROP>/out/<A|B>
+# second-round deliverables live in /tmp/m2_<PROP>/out/<A|B>, third-round ones in /tmp/m3_<PROP>/out/<A|B>
 ROUND2_SRC = {"C": "A", "D": "B"}
+ROUND3_SRC = {"E": "A", "F": "B"}
 
 
 def main(overrides=None):
@@ -148,7 +186,8 @@ def main(overrides=None):
     os.makedirs(out_root, exist_ok=True)
     summary = []
     for mid, (prop, desc, needs, det) in sorted(res.items()):
-        src = f"/tmp/m2_{prop}/out/{ROUND2_SRC[mid[-1]]}" if mid[-1] in ROUND2_SRC else f"/tmp/mut_{prop}/out/{mid[-1]}"
+        src = (f"/tmp/m2_{prop}/out/{ROUND2_SRC[mid[-1]]}" if mid[-1] in ROUND2_SRC
+               else f"/tmp/m3_{prop}/out/{ROUND3_SRC[mid[-1]]}" if mid[-1] in ROUND3_SRC else f"/tmp/mut_{prop}/out/{mid[-1]}")
         dst = os.path.join(out_root, mid)
         if os.path.isdir(src):
             os.makedirs(dst, exist_ok=True)
@@ -171,7 +210,7 @@ def main(overrides=None):
             "change": desc,
             "needs_to_manifest": needs,
             "origin": "independent sub-agent given only the property text and a scratch worktree of /repo (nothing from /verif)"
-                      + ("; second round: also given a one-line list of the first-round changes (to avoid repeats) and a list of candidate source files" if mid[-1] in ROUND2_SRC else ""),
+                      + ("; second round: also given a one-line list of the first-round changes (to avoid repeats) and a list of candidate source files" if mid[-1] in ROUND2_SRC or mid[-1] in ROUND3_SRC else ""),
             "confirmation": conf,
             "confirmation_procedure": "bin/confirm_seeded.py in a scratch worktree: demo on the pristine tree passes; demo with the "
                                       "change fails; whole pinned suite with the change passes (flaky test_repair_auth_unauth ignored)",
